@@ -212,6 +212,20 @@ Definition apply_disconnect (h : hstate) (gr : option (list fam * N)) (llgr : op
       end
   end.
 
+(* gr_restart_timer_expired; [cur] are the LLGR timers that stay armed next to the new ones *)
+Definition restart_handler (h : hstate) (cur : list fam) : hstate :=
+  let '(g', outs) := gr_step (h_gr h) GTimerExpired in
+  let rib1 := rib_drop (h_rib h) (delete_fams outs) in
+  match start_llgr outs with
+  | Some l => upd_h h g' false (add_timers cur (map fst l)) (rib_mark_llgr rib1 (map fst l))
+  | None => upd_h h g' false cur rib1
+  end.
+
+(* llgr_timer_expired for family f (the timer slot itself is handled by the caller) *)
+Definition llgr_handler (h : hstate) (f : fam) : hstate :=
+  let '(g', outs) := gr_step (h_gr h) (GLlgrTimerExpired f) in
+  upd_h h g' (h_rtimer h) (h_ltimers h) (rib_drop_llgr_stale (h_rib h) (delete_llgr_fams outs)).
+
 Definition h_step (h : hstate) (e : hevent) : hstate :=
   match e with
   | HUp fams gr llgr =>
@@ -277,36 +291,17 @@ Definition h_step (h : hstate) (e : hevent) : hstate :=
       | None => h
       end
   | HFailedConnect => apply_disconnect h None None
-  | HRestartTimer =>
-      if h_rtimer h then
-        let '(g', outs) := gr_step (h_gr h) GTimerExpired in
-        let rib1 := rib_drop (h_rib h) (delete_fams outs) in
-        match start_llgr outs with
-        | Some l => upd_h h g' false (add_timers (h_ltimers h) (map fst l)) (rib_mark_llgr rib1 (map fst l))
-        | None => upd_h h g' false (h_ltimers h) rib1
-        end
-      else h
+  | HRestartTimer => if h_rtimer h then restart_handler h (h_ltimers h) else h
   | HLlgrTimer f =>
       if mem f (h_ltimers h) then
-        let '(g', outs) := gr_step (h_gr h) (GLlgrTimerExpired f) in
-        upd_h h g' (h_rtimer h) (fremove f (h_ltimers h)) (rib_drop_llgr_stale (h_rib h) (delete_llgr_fams outs))
+        llgr_handler (upd_h h (h_gr h) (h_rtimer h) (fremove f (h_ltimers h)) (h_rib h)) f
       else h
   | HForceDown =>
       (* fire_gr_timer, fire_llgr_timers: the timers armed at the call run their handlers;
          LLGR timers started by the restart-timer handler are new tasks and stay pending *)
       let armed := h_ltimers h in
-      let h1 := if h_rtimer h then
-                  let '(g', outs) := gr_step (h_gr h) GTimerExpired in
-                  let rib1 := rib_drop (h_rib h) (delete_fams outs) in
-                  match start_llgr outs with
-                  | Some l => upd_h h g' false (map fst l) (rib_mark_llgr rib1 (map fst l))
-                  | None => upd_h h g' false [] rib1
-                  end
-                else upd_h h (h_gr h) false [] (h_rib h) in
-      fold_left (fun hh f =>
-                   let '(g', outs) := gr_step (h_gr hh) (GLlgrTimerExpired f) in
-                   upd_h hh g' (h_rtimer hh) (h_ltimers hh) (rib_drop_llgr_stale (h_rib hh) (delete_llgr_fams outs)))
-                armed h1
+      let h1 := if h_rtimer h then restart_handler h [] else upd_h h (h_gr h) false [] (h_rib h) in
+      fold_left llgr_handler armed h1
   | HSetAdminDown b =>
       {| h_gr := h_gr h; h_rtimer := h_rtimer h; h_ltimers := h_ltimers h; h_rib := h_rib h;
          h_sess := h_sess h; h_gen := h_gen h; h_admin_down := b |}
